@@ -18,6 +18,7 @@ RULE = ("every valid metric class (and the obsfcst table) x a random axis (all 1
 RULE += " " + "Duplicate -leg names and identical file names in different directories occur (each column must still carry its own file's scores)."
 ASSUMPTIONS = ["a mismatch of one unit in the last printed digit is excused (decimal rounding at the formatting boundary)"]
 REQUIRED_COUNTERS = ["tables", "values_compared", "descriptors_compared", "file_vs_stdout", "acc_tables", "refcli_tables", "audit_open_write"]
+ROTATE_TZ = True       # dates, times of day and time labels are UTC whatever the time zone of the machine
 ANCHOR_FUNCS = ["Output.csv", "Output.text", "Standard._get_x_y"]
 
 NAN = float("nan")
@@ -175,6 +176,16 @@ def run_case(ctx, rng, ci, names):
             ul, lc, uu, uc = attach.BIN_TABLE[bin_type]
             if ul and uu and (thresholds is None or len(thresholds) < 2):
                 bin_type = None
+        if thresholds and len(thresholds) >= 2 and axis == "threshold" and kind in ("det", "thr") and \
+                not (bin_type and "within" in bin_type) and rng.random() < 0.4:
+            # thresholds in the order the user gives them (rows "as given for thresholds")
+            shuffled = list(thresholds)
+            rng.shuffle(shuffled)
+            if shuffled != thresholds:
+                i_r = argv.index("-r")
+                thresholds = shuffled
+                argv[i_r + 1] = ",".join(gen.fnum(t) for t in thresholds)
+                ctx.count("unsorted_threshold_tables")
         if bin_type:
             argv += ["-b", bin_type]
         if kind in ("q1", "q2") and not bin_type:
